@@ -31,7 +31,7 @@ func TestC27(t *testing.T) {
 	defer r.Finish()
 	polyeth.VerifSealBypass = true
 	defer func() { polyeth.VerifSealBypass = false }()
-	r.Rule("random header trees (<=14 nodes quick, <=40 thorough; branching biased to long competing forks, difficulties by the real rule with varied timestamps/uncle flags so forks have different weights, incl. equal-weight siblings; per-branch tempo from 1 s to 2400 s gaps and uncle flags so that shorter-but-heavier forks occur; one tree in six is directed: a slow branch of L+1 blocks (gaps >= 900 s, difficulty falls ~4.8% per block) against a fast branch of L >= 6 blocks (gaps 1-8 s) from the same ancestor, submitted slow-first (reorganisation onto a LOWER head) or fast-first (a higher but lighter fork must not be adopted)) submitted in random orders with children before parents, duplicates and batches of 1-4; distinct = (tree shape, submission order) fingerprint; monitor after every call")
+	r.Rule("random header trees (<=14 nodes quick, <=40 thorough; branching biased to long competing forks, difficulties by the real rule with varied timestamps/uncle flags so forks have different weights, incl. equal-weight siblings; per-branch tempo from 1 s to 2400 s gaps and uncle flags so that shorter-but-heavier forks occur; one tree in six is directed: a slow branch of L+1 blocks (gaps >= 900 s, difficulty falls ~4.8% per block) against a fast branch of L >= 6 blocks (gaps 1-8 s) from the same ancestor, submitted slow-first (reorganisation onto a LOWER head) or fast-first (a higher but lighter fork must not be adopted)) plus headers whose number skips 1-4 heights over a stored parent (every other field conforming for that number); submitted in random orders with children before parents, duplicates and batches of 1-4; distinct = (tree shape, submission order) fingerprint; monitor after every call")
 	r.Assume("every header of a tree conforms to the Ethereum header rules (checked by the independent spec oracle of ethsynth), so a header whose parent is stored must be stored and a call fails only because some header's parent is unknown")
 	r.Assume("ties in total difficulty: any maximal head is accepted")
 	r.Assume("canonical index entries above the head height are not part of the index (unreachable through GetHeaderByHeight)")
@@ -70,6 +70,7 @@ func TestC27(t *testing.T) {
 	r.Require("reorgs", trees/4)
 	r.Require("duplicate_calls_no_change", trees/4)
 	r.Require("forks_not_adopted", trees/4)
+	r.Require("height_gap_headers_refused", trees/2)
 	r.Require("reorg_to_lower_head", trees/16)
 	r.Require("higher_but_lighter_fork_not_adopted", trees/16)
 }
@@ -231,6 +232,10 @@ func runTree(r *kit.Run, rng *rand.Rand, e *es.Env, chainID uint64, net uint32, 
 	for i := 0; i < n; i++ {
 		sched = append(sched, i)
 	}
+	hdrOf := map[es.Hash]*es.Hdr{rootHash: root}
+	for _, nd := range tree {
+		hdrOf[nd.hash] = nd.h
+	}
 	stored := map[es.Hash]bool{rootHash: true}
 	bestTD := new(big.Int).Set(root.Difficulty)
 	headHash := rootHash
@@ -242,6 +247,34 @@ func runTree(r *kit.Run, rng *rand.Rand, e *es.Env, chainID uint64, net uint32, 
 		}
 		if pos+bs > len(sched) {
 			bs = len(sched) - pos
+		}
+		// now and then: a header on a stored parent (mostly the head) that is conforming in every field
+		// except that its number skips k >= 1 heights; it must be refused and leave no trace
+		if rng.Intn(5) == 0 {
+			parent := hdrOf[headHash]
+			if rng.Intn(3) == 0 {
+				if nd := tree[rng.Intn(n)]; stored[nd.hash] {
+					parent = nd.h // some stored header that need not be the head
+				}
+			}
+			k := uint64(1 + rng.Intn(4))
+			sk := es.Child(rng, forks, parent, es.ChildOpt{Skip: k})
+			viol := es.Violations(forks, parent, sk)
+			d0 := e.HSDigestChain(chainID)
+			rec := e.SyncHeaders(chainID, sk.JSON())
+			r.Eval(1)
+			obs, _ := e.Stored(chainID)
+			_, isStored := obs[sk.Hash()]
+			if rec.Ok || isStored || e.HSDigestChain(chainID) != d0 {
+				r.Violation("header-with-height-gap-accepted", fmt.Sprintf("header number %d on parent number %d (violates %v): ok=%v stored=%v", sk.Number, parent.Number, viol, rec.Ok, isStored),
+					map[string]interface{}{"network": net, "trustRoot": string(root.JSON()), "parent": string(parent.JSON()), "header": string(sk.JSON())})
+				return
+			}
+			if len(viol) == 1 && viol[0] == "number" {
+				r.Count("height_gap_headers_refused", 1)
+			} else {
+				r.Count("height_gap_headers_refused_other_rules_too", 1)
+			}
 		}
 		batch := sched[pos : pos+bs]
 		pos += bs
